@@ -1,6 +1,7 @@
 From Coq Require Extraction ExtrOcamlBasic.
 From Common Require Import Words.
-From Rc Require Import RcModel RcSpec.
+From Rc Require Import RcModel RcSpec RcConc.
 Extraction Language OCaml.
 Extraction "model.ml" anchor init step step_as_written step_obs destroy_all live_blocks total_dtors
-  sinit spec_step reachable must_be_destroyed.
+  sinit spec_step reachable must_be_destroyed
+  cinit cstep run_sched finishedb final_values live_cblocks total_cfrees handles_total steps_bound.
